@@ -76,7 +76,7 @@ def monitor(R, out, log, plan):
     nt = len(t)
     dt = spec["dt"]
     contacts = B.contacts
-    mu = np.array([c.mu for c in contacts])
+    mu = np.array([co["mu"] for co in B.scene["contacts"]])
     eN = s.e_N
     ftol = opt.fixed_point_atol + opt.fixed_point_rtol * (1 + float(np.max(np.abs(u))))
     ntol = opt.newton_atol + opt.newton_rtol
@@ -94,7 +94,6 @@ def monitor(R, out, log, plan):
     def bad(cls, sig, detail):
         out["violations"].append(violation(cls, sig, detail))
 
-    fr = [(c, c.la_FDOF) for c in contacts]
     T_prev = kinetic(B, q[0], u[0])
     for k in range(1, nt):
         restore_basis(R, k)
@@ -157,15 +156,15 @@ def monitor(R, out, log, plan):
             gF = s.gamma_F(tc, qc, u[k])
         for i, c in enumerate(contacts):
             closed_i = bool(active[i])
-            if not hasattr(c, "la_FDOF") or c.mu == 0:
+            if not hasattr(c, "la_FDOF") or mu[i] == 0:
                 slip = None
             else:
                 Pf = PF[k][c.la_FDOF]
-                lim = c.mu * P[i]
+                lim = mu[i] * P[i]
                 nPf = float(np.linalg.norm(Pf))
                 worst["cone"] = max(worst["cone"], nPf - lim)
                 if nPf > lim + tol_cone:
-                    bad("cone", f"{name}/{type(c).__name__}", f"step {k}: |P_F|={nPf:.3e} exceeds mu*P_N={lim:.3e} (mu={c.mu:.2f})")
+                    bad("cone", f"{name}/{type(c).__name__}", f"step {k}: |P_F|={nPf:.3e} exceeds mu*P_N={lim:.3e} (mu={mu[i]:.2f})")
                     return
                 xiF = gF[c.la_FDOF]
                 nx = float(np.linalg.norm(xiF))
